@@ -872,7 +872,7 @@ def run_tie(chk, C, F, tie_inputs):
         info.append((suite, inf))
         suites[suite] = suites.get(suite, 0) + 1
 
-    limit = 350 if not thorough else 3000
+    limit = 600 if not thorough else 6000
     structure_mismatch = 0
     for db, enc, b1, db2 in tie_inputs[:limit]:
         text = b1.decode(enc[1].get("dbcExportEncoding", "iso-8859-1"), "replace")
